@@ -763,6 +763,9 @@ func runL4Case(c *l4Case) (obs *l4Obs) {
 				}
 				return false
 			})
+			// ... and for the pool to have taken the discarded connection back: the rollback
+			// event is recorded before database/sql releases the connection
+			waitFor(func() bool { return sqldb.Stats().InUse == 0 })
 		}
 		finish()
 	}
